@@ -226,3 +226,45 @@ CONTRACTS = CONTRACTS + [
                5: dict(binds="latter_map[former_index]", invariant={"scores-so-far": SCORES_OK})},
     ),
 ]
+
+
+# ------------------------------------------------------------------ C14: accessor <-> adjacency matrix
+CONTRACTS = CONTRACTS + [
+    dict(
+        name="dsw.graphized.accessor_to_adjacency_matrix", n_loops=1,
+        ghost_params={"k": "nat"},
+        params={"accessor": "mat(ipow(4, k), 4)", "maximum_length": "nat", "verbose": "false"},
+        requires={"graph": "k >= 1 and is_accessor(accessor, k)"},
+        returns="mat(ipow(4, k), ipow(4, k))",
+        # arc_rows(m, acc, lo, hi): for lo <= v < hi and every column w: m[v][w] = 1 if w is one of the four entries of accessor row v, else 0
+        ensures={"shape": "len(result) == ipow(4, k) and len(result[0]) == ipow(4, k)",
+                 "one-exactly-at-the-arcs": "arc_rows(result, accessor, 0, ipow(4, k))"},
+        raises={"MemoryError": "ipow(4, k) >= ipow(4, maximum_length)"},
+        ghost={"entry": "ipow_mono(4, 0, k)",
+               "loop1_begin": "mark(vertex_index)\n" + "".join("if accessor[vertex_index][%d] >= 0:\n    pass\n" % j for j in range(4))},
+        loops={1: dict(binds="enumerate(accessor)", invariant={
+            "finished-rows": "arc_rows(matrix, accessor, 0, _i)",
+            "untouched-rows": "zero_rows(matrix, _i, ipow(4, k))"})},
+    ),
+]
+
+CONTRACTS = CONTRACTS + [
+    dict(
+        name="dsw.graphized.adjacency_matrix_to_accessor", n_loops=1,
+        ghost_params={"k": "nat"},
+        params={"matrix": "mat(ipow(4, k), ipow(4, k))", "verbose": "false"},
+        requires={"order": "k >= 1 and k <= 31"},
+        returns="mat(ipow(4, k), 4)",
+        ensures={"shape": "len(result) == ipow(4, k) and len(result[0]) == 4",
+                 "column-j-holds-the-j-th-successor-or-nothing": "forall(lambda v: forall(lambda j: result[v][j] == ite(matrix[v][succ(v, j, k)] == 1, succ(v, j, k), -1), 0, 4), "
+                                                                 "0, ipow(4, k), lambda v: result[v])"},
+        # a matrix with a 1 that is not a de Bruijn shift is rejected, and only such a matrix
+        raises={"ValueError": "not legal_rows(matrix, k, 0, ipow(4, k))"},
+        ghost={"entry": "ipow_mono(4, 0, k)\nipow_mono(4, 0, k - 1)\nassert ipow(4, k) == 4 * ipow(4, k - 1), 'pow-step'",
+               "loop1_begin": "mark(vertex_index)"},
+        loops={1: dict(binds="enumerate(matrix)", invariant={
+            "finished-rows": "forall(lambda v: forall(lambda j: accessor[v][j] == ite(matrix[v][succ(v, j, k)] == 1, succ(v, j, k), -1), 0, 4), 0, _i, lambda v: accessor[v])",
+            "legal-so-far": "legal_rows(matrix, k, 0, _i)",
+            "order": "observed_length == k"})},
+    ),
+]
